@@ -250,3 +250,12 @@ Example c04_usage_instance :
              end) (af_args the_field) = true
   /\ forallb (fun d => CoerceModel.type_known EE (Values.vd_type d)) the_defs = true.
 Proof. vm_compute. split; reflexivity. Qed.
+
+(** * round 6: C04's whole ValidateDocument model accepts the single-field projection of [the_op] at
+    [the_field] (both variables are mentioned by its argument literals) *)
+From ApiFu Require Cost.CostProj.
+Example projection_instance :
+  CostProj.projection_accepted Z EE dtn the_defs the_field = true /\
+  CostProj.used_defs Z the_defs the_field = the_defs /\
+  Values.ahas BridgeC04.n_Query EE = false /\ Values.ahas BridgeC04.n_Res EE = false.
+Proof. vm_compute. repeat split; reflexivity. Qed.
